@@ -1513,8 +1513,12 @@ class Evaluator:
             rb = self.method_call(base.b, meth, args, kwargs, fr, node)
             if ra is not NotImplemented and rb is not NotImplemented:
                 return mk_ite(base.cond, ra, rb)
+        if isinstance(base, Obj) and base.cls in ('regex', 'rematch'):
+            r = _fold_regex_method(base, meth, args)
+            if r is not NotImplemented:
+                return r
         if isinstance(base, Const) and isinstance(base.v, str):
-            cargs = [a.v for a in args if isinstance(a, Const)]
+            cargs = [x for x in (_py_const(a) for a in args) if x is not _NOCONST]
             if len(cargs) == len(args) and not kwargs and meth in (
                     'lower', 'upper', 'replace', 'strip', 'lstrip', 'rstrip', 'startswith', 'endswith',
                     'split', 'title', 'capitalize', 'isdigit', 'find', 'count'):
@@ -1675,6 +1679,17 @@ class Evaluator:
                 if isinstance(a[0], (Obj, DictV, Tup)) and getattr(a[0], 'typed', True):
                     return Const(False)      # np.isscalar of any non-number object is False
                 return App('isscalar', (a[0],))
+        if root == 're' and short in ('compile', 'search', 'match', 'fullmatch', 'findall', 'split', 'sub') and a:
+            ca = [_py_const(x) for x in a]
+            if all(x is not _NOCONST for x in ca) and isinstance(ca[0], str) and not kwargs:
+                if short == 'compile':
+                    o = Obj('regex', {'pattern': Const(ca[0])}, None)
+                    if len(ca) > 1:
+                        o.fields['flags'] = ca[1]
+                    return o
+                r = _fold_regex_method(Obj('regex', {'pattern': Const(ca[0])}, None), short, a[1:])
+                if r is not NotImplemented:
+                    return r
         if name == 'math.pi' or name == 'numpy.pi':
             return sp.pi
         if short in ('deepcopy',) and self.track_copies:
@@ -1782,6 +1797,60 @@ class Evaluator:
                 return BoolT({'and_': 'and', 'or_': 'or', 'xor': 'xor'}[short], tuple(a))
         return App(name, tuple(a) + tuple(Tup((Const(k), v)) for k, v in sorted(
             kwargs.items(), key=lambda kv: kv[0])))
+
+
+_NOCONST = object()
+
+
+def _py_const(t):
+    """the Python constant a term denotes (str/int/bool/None/tuple of them), else _NOCONST."""
+    if isinstance(t, Const):
+        return t.v
+    if isinstance(t, sp.Integer):
+        return int(t)
+    if isinstance(t, Tup) and t.kind != 'array':
+        xs = [_py_const(i) for i in t.items]
+        if all(x is not _NOCONST for x in xs):
+            return tuple(xs) if t.kind != 'list' else list(xs)
+    return _NOCONST
+
+
+def _term_of_py(r):
+    if isinstance(r, bool) or r is None or isinstance(r, str):
+        return Const(r)
+    if isinstance(r, int):
+        return sp.Integer(r)
+    if isinstance(r, (list, tuple)):
+        return Tup(tuple(_term_of_py(x) for x in r), 'list' if isinstance(r, list) else 'tuple')
+    return None
+
+
+def _fold_regex_method(base, meth, args):
+    """constant folding of the stdlib regex engine: compiled pattern / match objects applied to constant strings."""
+    import re as _re
+    cargs = [_py_const(a) for a in args]
+    if any(x is _NOCONST for x in cargs):
+        return NotImplemented
+    try:
+        if base.cls == 'regex':
+            rx = _re.compile(base.fields['pattern'].v, base.fields.get('flags', 0) or 0)
+            if meth in ('search', 'match', 'fullmatch'):
+                mt = getattr(rx, meth)(*cargs)
+                if mt is None:
+                    return Const(None)
+                o = Obj('rematch', {}, None)
+                o.pymatch = mt
+                return o
+            if meth in ('findall', 'split', 'sub'):
+                return _term_of_py(getattr(rx, meth)(*cargs))
+        if base.cls == 'rematch' and meth in ('groups', 'group', 'span', 'start', 'end', 'groupdict'):
+            r = getattr(base.pymatch, meth)(*cargs)
+            if isinstance(r, dict):
+                return DictV([{k: _term_of_py(v) for k, v in r.items()}])
+            return _term_of_py(r)
+    except Exception:
+        return Unknown(f're.{meth} failed on constants')
+    return NotImplemented
 
 
 def _narrowing_dtype(dt):
